@@ -26,6 +26,9 @@ type ProgCfg struct {
 	LongStr    bool     // allow strings longer than a few characters
 	PlainStr   bool     // strings restricted to letters/spaces/punctuation without digits and newlines
 	NoFloat    bool
+	// statement kind weights: var, assignment, print, def, bind (bind only
+	// at toplevel and with Binds); zero value = defaults
+	WVar, WAsg, WPrint, WDef, WBind int
 }
 
 var DefaultNames = []string{"a", "b", "c", "d", "e"}
@@ -496,6 +499,10 @@ func (g *PG) bindStmt() *Stmt {
 			have = append(have, ty)
 		}
 	}
+	if len(have) == 0 && Chance(g.T, 85, "bindlater") {
+		// nothing to bind yet: define a block instead
+		return g.defStmt(0)
+	}
 	ty := Pick(g.T, "bindtype", g.C.Types)
 	if len(have) > 0 && Chance(g.T, 85, "bindhave") {
 		ty = Pick(g.T, "bindtype2", have)
@@ -625,16 +632,17 @@ func (g *PG) body(depth int, n int) []*Stmt {
 			out = append(out, g.badBindStmt())
 			continue
 		}
-		wDef := 20
+		wVar, wAsg, wPrint, wDef, wBind := g.C.WVar, g.C.WAsg, g.C.WPrint, g.C.WDef, g.C.WBind
+		if wVar+wAsg+wPrint+wDef+wBind == 0 {
+			wVar, wAsg, wPrint, wDef, wBind = 25, 25, 20, 20, 15
+		}
 		if depth >= g.C.MaxDepth {
 			wDef = 0
 		}
-		wBind := 0
-		if top && g.C.Binds {
-			wBind = 15
+		if !top || !g.C.Binds {
+			wBind = 0
 		}
-		wAsg := 25
-		switch Weighted(g.T, "stmtkind", 25, wAsg, 20, wDef, wBind) {
+		switch Weighted(g.T, "stmtkind", wVar, wAsg, wPrint, wDef, wBind) {
 		case 0:
 			s = g.varStmt()
 		case 1:
